@@ -32,7 +32,9 @@ BOUNDS = {
 }
 # cut kinds that must be present by construction (counted, not assumed)
 MUST_KINDS = ("in_char", "cr_lf", "between_lines", "before_blank", "in_line")
-BATCH_PAIRS = 300_000  # (stream, chunking) pairs per monitor run (a two-stream schedule counts 3: it carries more values)
+# (stream, chunking) pairs per monitor run (a two-stream schedule counts 3: it carries more values); measured to fit the
+# 3g heap: quick's whole family (398k units) in one run, thorough in batches of 300k
+BATCH_PAIRS = {"quick": 420_000, "thorough": 300_000}
 HEAP = "3g"
 # FeedAll / DecFrom recurse once per character and TLC's interpreter needs many Java frames per level: with the default
 # thread stack a 50-character chunk occasionally ended in a StackOverflowError (before the JIT had compiled the
@@ -231,7 +233,7 @@ def judge(chk: Check, traces: list[dict], label: str) -> None:
     size = 0
     for t in traces:
         n = len(t["chunkings"]) if t["kind"] == "single" else 3 * len(t["runs"])
-        if batches[-1] and size + n > BATCH_PAIRS:
+        if batches[-1] and size + n > BATCH_PAIRS[chk.tier]:
             batches.append([])
             size = 0
         batches[-1].append(t)
